@@ -19,8 +19,15 @@ REQUIRED = ['gregory_subtract_exact', 'gregory_split_equal', 'gregory_meets_spec
 NAME_MODES = ['str', 'int0', 'empty0', 'person']
 REQUIRED_COUNTERS = ['surplus_transfer', 'exhausted_pile_gt_candidate', 'shared_first_rank', 'zero_first_pref_candidate',
                      'eliminate_step_-2', 'mandatory_quota', 'multi_seat_candidate', 'hare_draw', 'shortcut',
-                     'elimination', 'refusal', 'fraction_weights', 'stv_next', 'stv_nth', 'distributor']
-RULE = ('ranked profiles over 1-6 candidates, 1-10 ballot types (truncated, shared ranks, empty ballots, zero-first-preference '
+                     'elimination', 'refusal', 'fraction_weights', 'stv_next', 'stv_nth', 'distributor',
+                     # generator audit (harness/GENERATOR_CHECKLIST.md)
+                     'big_on_quota', 'big_below_quota', 'big_above_quota', 'big_two_quotas', 'big_near_tie', 'decimal_weights',
+                     'decimal_long', 'zero_total', 'shared_only_candidate', 'shared_rank_3', 'shared_rank_4plus',
+                     'exhausted_several_quotas', 'overcount_correction', 'prev_absent_party', 'cap_reached_cumulatively',
+                     'quota_callable', 'quota_constant', 'quota_none', 'transferer_by_name', 'retainer_plurality', 'step_positive',
+                     'step_none', 'sens_accept_equal', 'sens_mandatory_quota', 'sens_eliminate_step', 'warmup_refusal',
+                     'warmup_larger', 'warmup_other_n', 'warmup_big']
+RULE = ('(audited against harness/GENERATOR_CHECKLIST.md) ranked profiles over 1-6 candidates, 1-10 ballot types (truncated, shared ranks, empty ballots, zero-first-preference '
         'candidates), weights from a tie-forcing small set / Fractions / integers up to 10^20, n_seats 1..#candidates, Gregory and '
         'Hare(seed) transfer, quota droop / hare / hagenbach_bischoff / None, accept_quota_equal, mandatory_quota, eliminate_step '
         '-1/-2, selector and distributor form (max_seats up to 3, prev_gains); every evaluate() run is recorded count by count '
@@ -66,6 +73,9 @@ def _run_trace(case):
     else:
         res, counts, draws, bad, msg = record_run(case, lambda d, s: d.evaluate(votes, n, prev_gains=dict(prev), max_seats=dict(maxs)))
         result = res if isinstance(res, dict) and 'err' in res else enc_seats(res)
+    if counts:
+        # the allocation the first count started from is the initial allocation of this very run (an unseeded Hare draws anew)
+        init = counts[0]['alloc_in']
     out_counts = []
     compared = counts
     if isinstance(result, dict) and result.get('err') == 'VotingSystemError' and counts and 'err' not in counts[-1]:
@@ -166,6 +176,53 @@ def _retag_trace(case, obs):
         _tag(case, 'zero_first_pref_candidate')
     if isinstance(obs['result'], dict) and obs['result'].get('err') == 'NotImplementedError':
         _tag(case, 'refusal')
+    for b, _ in case['votes']:
+        for it in b:
+            if isinstance(it, list) and len(it) == 3:
+                _tag(case, 'shared_rank_3')
+            if isinstance(it, list) and len(it) >= 4:
+                _tag(case, 'shared_rank_4plus')
+    alone = {it for b, _ in case['votes'] for it in b if not isinstance(it, list)}
+    if any(c not in alone for c in profile_cands(case['votes'])):
+        _tag(case, 'shared_only_candidate')
+    if case.get('wtype') == 'decimal':
+        _tag(case, 'decimal_weights')
+        if any(Fraction(w).denominator > 10 ** 6 for _, w in case['votes']):
+            _tag(case, 'decimal_long')
+    if case['votes'] and sum(Fraction(w) for _, w in case['votes']) == 0:
+        _tag(case, 'zero_total')
+    q_form = case.get('quota')
+    _tag(case, 'quota_none' if q_form is None else 'quota_constant' if quota_is_const(q_form)
+         else 'quota_callable' if case.get('quota_form') == 'callable' else 'quota_name')
+    if case.get('transferer_form') == 'name':
+        _tag(case, 'transferer_by_name')
+    if case.get('retainer'):
+        _tag(case, 'retainer_plurality')
+    if case.get('step', -1) is None:
+        _tag(case, 'step_none')
+    elif case.get('step', -1) >= 0:
+        _tag(case, 'step_positive')
+    if case.get('warmup'):
+        _tag(case, 'warmup_' + case.get('_warm_kind', 'x'))
+    if case.get('form', 'selector') != 'selector' and any(c not in profile_cands(case['votes']) for c, _ in case.get('prev') or []):
+        _tag(case, 'prev_absent_party')
+    times = {}
+    for rec in obs['_detail']:
+        if 'err' in rec:
+            continue
+        for c, k in rec['elected']:
+            if k:
+                times[c] = times.get(c, 0) + 1
+        tot_in = _totals(rec['alloc_in'])
+        qv = Fraction(rec['quota']) if rec.get('quota') else None
+        if qv is not None and qv > 0 and None in tot_in and tot_in[None] >= 2 * qv:
+            _tag(case, 'exhausted_several_quotas')
+        if qv is not None and qv > 0 and not rec['shortcut'] and rec['elected']:
+            n_rem = case['n'] - sum(k for _, k in rec['prev'])
+            if sum(1 for h, t in tot_in.items() if h is not None and t >= qv) > n_rem >= 1:
+                _tag(case, 'overcount_correction')
+    if any(v >= 2 for v in times.values()):
+        _tag(case, 'cap_reached_cumulatively')
     for rec in obs['_detail']:
         if 'err' in rec:
             continue
@@ -259,6 +316,24 @@ def _check_count(case, a_in, prev, rec, out, where):
                         f'configured number {want}'))
 
 
+def _allowed_errors(case):
+    allowed = {'NotImplementedError', 'VotingSystemError'}
+    if case.get('step', -1) is None:
+        allowed.add('ValueError')       # "need to specify eliminate step without standalone retainer" (L345-347)
+    elif case.get('step', -1) >= 0:
+        # outside the quantifier (eliminate_step in {-1,-2}); "might cause an infinite loop if not used properly": with nobody left
+        # and seats open `get_n_best({}, -1)` raises IndexError where a negative step ends in VotingSystemError
+        allowed.add('IndexError')
+    if case.get('wtype') == 'decimal':
+        allowed.add('TypeError')        # Decimal vote counts are not supported by the STV classes in any configuration
+    return allowed
+
+
+def _positive_step_equiv(case, ierr, merr):
+    return (isinstance(case.get('step', -1), int) and case.get('step', -1) >= 0 and ierr == 'IndexError'
+            and merr == 'VotingSystemError')
+
+
 def _overshoot(case, detail):
     """more seats awarded than asked for (distributor form, multi-seat over-award): outside this property (seat
     totals are C08's subject); a run is followed only up to that state"""
@@ -277,9 +352,19 @@ def _oracle_trace(case, obs):
         out.append(('draw_contract', obs['_bad_draws'][0]))
     res = obs['result']
     overshoot = _overshoot(case, obs['_detail'])
-    if (isinstance(res, dict) and 'err' in res and res['err'] not in ('NotImplementedError', 'VotingSystemError')
-            and not overshoot):
+    allowed = _allowed_errors(case)
+    if isinstance(res, dict) and 'err' in res and res['err'] not in allowed and not overshoot:
         out.append(('unexpected_error', f"{res['err']}: {obs.get('_msg')}"))
+    # the quota in force is the textbook value of the configured quota (computed here, not taken from votelib)
+    Vq = sum((Fraction(w) for _, w in case['votes']), Fraction(0))
+    want_q = ref_quota(case, Vq, case['n'])
+    for i, rec in enumerate(obs['_detail']):
+        if 'err' in rec or rec['shortcut']:
+            continue
+        got_q = Fraction(rec['quota']) if rec.get('quota') is not None else None
+        if (case.get('quota') is None or quota_is_const(case.get('quota')) or case.get('quota') in REF_QUOTAS) and got_q != want_q:
+            out.append(('quota_value', f'count {i + 1}: quota {got_q}, the configured quota of {Vq} votes and {case["n"]} seats is {want_q}'))
+            break
     if overshoot:
         _tag(case, 'seat_overshoot_out_of_scope')
     init = obs['init']
@@ -335,7 +420,7 @@ def _oracle_next(case, obs):
     if obs.get('_bad_draws'):
         out.append(('draw_contract', obs['_bad_draws'][0]))
     if 'err' in obs:
-        if obs['err'] != 'NotImplementedError':
+        if obs['err'] not in (_allowed_errors(case) - {'VotingSystemError'}):
             out.append(('unexpected_error', f"{obs['err']}: {obs.get('_msg')}"))
         return out
     _check_count(case, case['alloc'], dict((c, k) for c, k in case.get('prev') or []), obs, out, 'count')
@@ -352,7 +437,7 @@ def oracle(case, obs):
     out = []
     if obs.get('_bad_draws'):
         out.append(('draw_contract', obs['_bad_draws'][0]))
-    if ('err' in obs and obs['err'] not in ('NotImplementedError', 'VotingSystemError')
+    if ('err' in obs and obs['err'] not in _allowed_errors(case)
             and not _overshoot(case, obs.get('_detail', []))):
         out.append(('unexpected_error', obs['err']))
     return out
@@ -401,6 +486,9 @@ def _cmp_alloc(a, b, where):
 def compare(case, iobs, mobs):
     if not isinstance(mobs, dict):
         return f'model answered {mobs}'
+    if (case.get('wtype') == 'decimal' and isinstance(iobs.get('result'), dict) and iobs['result'].get('err') == 'TypeError'):
+        _tag(case, 'decimal_rejected')
+        return None         # Decimal counts are refused outright; whatever is ever returned instead must equal the model
     if case['op'] == 'stv_trace':
         d = _cmp_alloc(iobs['init'], mobs.get('init'), 'init')
         if d:
@@ -423,6 +511,10 @@ def compare(case, iobs, mobs):
                 return d
         if unmodelled:
             return None
+        if (isinstance(case.get('step', -1), int) and case.get('step', -1) >= 0 and iobs['result'] == {'err': 'IndexError'}
+                and mres == {'err': 'VotingSystemError'}):
+            _tag(case, 'positive_step_nobody_left')
+            return None
         if canon(iobs['result']) != canon(mres):
             return f'result impl={iobs["result"]} model={mres}'
         if iobs['quota'] is not None and mobs.get('quota') is not None and Fraction(iobs['quota']) != Fraction(mobs['quota']):
@@ -444,7 +536,7 @@ def compare(case, iobs, mobs):
         return _cmp_alloc(iobs['alloc'], mobs['alloc'], 'new allocation')
     if case['op'] == 'stv_nth':
         if 'err' in iobs or 'err' in mobs:
-            if str(mobs.get('err', '')).startswith('unmodelled'):
+            if str(mobs.get('err', '')).startswith('unmodelled') or _positive_step_equiv(case, iobs.get('err'), mobs.get('err')):
                 return None
             return None if iobs.get('err') == mobs.get('err') else f'impl={iobs.get("err", "ok")} model={mobs.get("err", "ok")}'
         ti = [[h, str(Fraction(t))] for h, t in iobs['totals']]
@@ -501,6 +593,24 @@ def _trace_case(rng, tags=(), **kw):
             if mx >= 1 and n >= 1:
                 case['prev'] = [[c, 1]]
     case.update(kw)
+    x = rng.random()
+    if 'warmup' not in case and x < 0.08:
+        kind, w = warmup_variants(rng, case['votes'], case['n'])
+        if case['method'] == 'hare':
+            w = {'votes': [[b, num_str(int(Fraction(v)))] for b, v in w['votes']], 'n': w['n']}
+        if kind != 'big' or case['method'] != 'hare':
+            case['warmup'] = w
+            case['_warm_kind'] = kind
+    elif x < 0.12 and case.get('quota') and not quota_is_const(case['quota']):
+        case['quota_form'] = 'callable'
+    elif x < 0.16:
+        case['transferer_form'] = 'name'
+    elif x < 0.20:
+        case['retainer'] = 'plurality'
+    elif x < 0.23 and case['method'] == 'gregory':
+        case['quota'] = 'const:' + num_str(Fraction(rng.randint(2, 9), rng.choice([1, 1, 2])))
+    elif x < 0.25:
+        case['step'] = rng.choice([1, 2, 3])
     return _hare_fix(case)
 
 
@@ -607,6 +717,76 @@ def _directed(rng):
         d.update({'op': 'stv_nth', 'k': k, '_tags': ['directed']})
         yield d
     yield _trace_case(rng, ['directed'], m=4, form='distributor', method='gregory', mandatory=False, step=-1)
+    yield from _audit_directed(rng)
+
+
+def _audit_directed(rng):
+    """shapes of harness/GENERATOR_CHECKLIST.md, constructed on purpose so that every counter is hit on every seed"""
+    r = rng.randint
+    base = dict(method='gregory', quota='droop', mandatory=False, step=-1, accept_equal=True)
+    # 2. magnitude: a pile exactly on / one vote below / one above the integer Droop quota at 10^15 .. 10^30
+    for delta, tag in ((0, 'big_on_quota'), (-1, 'big_below_quota'), (1, 'big_above_quota')):
+        votes, q, V = big_boundary_profile(rng, 2, delta)
+        yield _trace_case(rng, ['directed', tag], votes=votes, n=2, **base)
+    votes, q, V = big_boundary_profile(rng, 2, 0)
+    yield _trace_case(rng, ['directed', 'big_on_quota', 'sens_accept_equal'], votes=votes, n=2, **dict(base, accept_equal=False))
+    votes, q, V = big_boundary_profile(rng, 3, rng.choice([0, -1]), k=2)
+    yield _trace_case(rng, ['directed', 'big_two_quotas'], votes=votes, n=3, form='distributor',
+                      max=[[c, 3] for c in profile_cands(votes)], prev=[], **base)
+    yield _trace_case(rng, ['directed', 'big_near_tie'], votes=near_tie_big_profile(rng), n=1, **base)
+    # 1. numeric types: Decimal (short and 7+ decimals), all-zero counts, exact small quota hit
+    yield _trace_case(rng, ['directed'], votes=decimal_profile(rng), n=1, wtype='decimal', **dict(base, quota=None))
+    yield _trace_case(rng, ['directed'], votes=decimal_profile(rng, long=True), n=2, wtype='decimal', **base)
+    yield _trace_case(rng, ['directed'], votes=[[[0, 1], '0'], [[1], '0'], [[2, 0], '0']], n=r(1, 2), **base)
+    for eq in (True, False):       # a holds exactly the quota 4 of 11 votes: elected at once iff accept_quota_equal
+        yield _trace_case(rng, ['directed', 'sens_accept_equal'], votes=[[[0, 1], '4'], [[1], '3'], [[2], '3'], [[3, 2], '1']], n=2,
+                          **dict(base, accept_equal=eq))
+    # 5. structure: candidate only inside shared ranks with 4+ seats, shared ranks of 3 and 4+, exhausted pile of several quotas
+    sv = shared_only_profile(rng)
+    yield _trace_case(rng, ['directed'], votes=sv, n=4, **base)
+    yield _trace_case(rng, ['directed'], votes=sv, n=4, form='distributor', max=[[c, 2] for c in profile_cands(sv)], prev=[], **base)
+    yield _trace_case(rng, ['directed'], votes=[[[[0, 1, 2, 3], 4], num_str(8 + r(0, 3))], [[[1, 2, 4]], '5'], [[4, [0, 3]], '3'], [[2], '2']],
+                      n=r(2, 4), **base)
+    yield _trace_case(rng, ['directed'], votes=exhausted_quota_profile(rng), n=2, **base)
+    yield _trace_case(rng, ['directed'], votes=exhausted_quota_profile(rng), n=3, **dict(base, step=-2))
+    # more candidates over the quota than seats (constant quota): the over-award correction keeps the best overcounts
+    yield _trace_case(rng, ['directed'], votes=[[[0], num_str(5 + r(0, 1))], [[1], '4'], [[2, 0], '3']], n=2, **dict(base, quota='const:3'))
+    # previous gains of a party absent from the votes; a cap of 2 reached over two counts (quota, then last standing)
+    yield _trace_case(rng, ['directed'], votes=[[[0, 1], '10'], [[1], '6'], [[2, 0], '3']], n=4, form='distributor',
+                      max=[[0, 2], [1, 1], [2, 1], [9, 2]], prev=[[9, 1]], **base)
+    yield _trace_case(rng, ['directed'], votes=[[[0], '10'], [[1], '6'], [[2, 0], '3']], n=3, form='distributor',
+                      max=[[0, 2], [1, 1], [2, 1]], prev=[], **base)
+    # 7. every constructor option in a non-default form
+    yield _trace_case(rng, ['directed'], m=4, shared_p=0, quota_form='callable', **base)
+    yield _trace_case(rng, ['directed'], m=4, shared_p=0, **dict(base, quota=None))
+    yield _trace_case(rng, ['directed'], m=4, shared_p=0.2, transferer_form='name', **base)
+    yield _trace_case(rng, ['directed'], votes=[[[0, 1], '9'], [[0, 2], '5'], [[1], '3'], [[2], '3']], n=2, transferer_form='name',
+                      **dict(base, method='hare'))
+    yield _trace_case(rng, ['directed'], m=5, shared_p=0, retainer='plurality', weights='mid', **base)
+    yield _trace_case(rng, ['directed'], votes=[[[0, 1], '7'], [[1], '5'], [[2, 1], '4'], [[3], '2'], [[4, 3], '1']], n=1,
+                      **dict(base, step=2, quota=None))
+    yield _trace_case(rng, ['directed'], votes=[[[0, 1], '7'], [[1], '5'], [[2, 1], '4'], [[3], '2']], n=1, **dict(base, step=None, quota=None))
+    # eliminate_step matters: -2 removes the two lowest at once; mandatory_quota matters: no election of the last standing
+    for st in (-1, -2):
+        yield _trace_case(rng, ['directed', 'sens_eliminate_step'], votes=[[[0], '9'], [[1, 2], '4'], [[2, 1], '3'], [[3, 2], '5']], n=1,
+                          **dict(base, step=st))
+    for mq in (False, True):
+        yield _trace_case(rng, ['directed', 'sens_mandatory_quota'], votes=[[[0], '5'], [[1], '2'], [[2], '1']], n=2, **dict(base, mandatory=mq))
+    # 6. state between calls: the same object counts another election first
+    for kind in ('refusal', 'larger', 'other_n', 'big'):
+        c = _trace_case(rng, ['directed'], m=4, shared_p=0.15, **base)
+        k2, w = None, None
+        rr = random_like(rng)
+        while k2 != kind:
+            k2, w = warmup_variants(rr, c['votes'], c['n'])
+        c['warmup'] = w
+        c['_warm_kind'] = kind
+        yield c
+
+
+def random_like(rng):
+    import random as _random
+    return _random.Random(rng.randint(0, 2 ** 30))
 
 
 def generate(rng, tier):
